@@ -43,7 +43,7 @@ fn ref_number(s: &[u8], max_len: usize) -> Option<(bool, i64, usize)> {
     Some((neg, if neg { -v } else { v }, i))
 }
 
-//@ unit c05_parse_number prop=C05,C03 chunks=ints:2,3,4,9 quick=all unwind=12 mem=4 timeout=900 bound="every byte string of length <= 10, max_len = parameter (the lengths the callers use): sign, at most max_len digits, value, remainder; error iff no digit"
+//@ unit c05_parse_number q23=1 prop=C05,C03 chunks=ints:2,3,4,9 quick=all unwind=12 mem=4 timeout=900 bound="every byte string of length <= 10, max_len = parameter (the lengths the callers use): sign, at most max_len digits, value, remainder; error iff no digit"
 fn c05_parse_number(max_len: usize) {
     let (buf, len) = any_text::<10>();
     let s = &buf[..len];
@@ -134,7 +134,7 @@ fn eq_ci(s: &[u8], at: usize, word: &[u8]) -> bool {
     true
 }
 
-//@ unit c05_parse_ampm prop=C05,C03 unwind=8 mem=3 bound="every byte string of length <= 6 x the four meridian styles: AM/PM (or A.M./P.M. for the dotted styles) in any letter case; empty text = no meridian"
+//@ unit c05_parse_ampm q23=1 prop=C05,C03 unwind=8 mem=3 bound="every byte string of length <= 6 x the four meridian styles: AM/PM (or A.M./P.M. for the dotted styles) in any letter case; empty text = no meridian"
 fn c05_parse_ampm() {
     let (buf, len) = any_text::<6>();
     let s = &buf[..len];
@@ -238,7 +238,7 @@ fn c05_parse_week_day_name() {
     }
 }
 
-//@ unit c03_small_leaves prop=C03,C05 unwind=10 mem=3 bound="every byte string of length <= 8: parse_week_day_number ('1'..'7' only), eat_whitespaces, eat_digits (every max_len 0..=9), expect_char (every byte)"
+//@ unit c03_small_leaves q23=1 prop=C03,C05 unwind=10 mem=3 bound="every byte string of length <= 8: parse_week_day_number ('1'..'7' only), eat_whitespaces, eat_digits (every max_len 0..=9), expect_char (every byte)"
 fn c03_small_leaves() {
     let (buf, len) = any_text::<8>();
     let s = &buf[..len];
@@ -273,7 +273,7 @@ fn c03_small_leaves() {
     assert!(expect_char(s, c) == (len > 0 && s[0] == c));
 }
 
-//@ unit c03_write_u32 prop=C03,C04 unwind=13 mem=3 bound="every u32 x every width 1..=10: decimal digits, zero-padded to the width, never truncated, no panic"
+//@ unit c03_write_u32 q23=1 prop=C03,C04 unwind=13 mem=3 bound="every u32 x every width 1..=10: decimal digits, zero-padded to the width, never truncated, no panic"
 fn c03_write_u32() {
     let v: u32 = kani::any();
     let width: usize = kani::any();
